@@ -306,3 +306,43 @@ func init() {
 	natives["strings.Join"] = natStringsJoin
 	natives["strings.Fields"] = natStringsFields
 }
+
+func init() {
+	natives["internal/bytealg.IndexByteString"] = func(fr *frame, fn *ssa.Function, a []value) value {
+		s, ok := a[0].(string)
+		c, ok2 := a[1].(uint8)
+		if !ok || !ok2 {
+			panic(engineAbort{"bytealg.IndexByteString on symbolic data"})
+		}
+		return strings.IndexByte(s, c)
+	}
+	natives["internal/bytealg.IndexByte"] = func(fr *frame, fn *ssa.Function, a []value) value {
+		bs := a[0].([]value)
+		c, ok := a[1].(uint8)
+		if !ok {
+			panic(engineAbort{"bytealg.IndexByte with a symbolic byte"})
+		}
+		for k, b := range bs {
+			x, ok := b.(uint8)
+			if !ok {
+				panic(engineAbort{"bytealg.IndexByte on symbolic data"})
+			}
+			if x == c {
+				return k
+			}
+		}
+		return -1
+	}
+	natives["internal/bytealg.CountString"] = func(fr *frame, fn *ssa.Function, a []value) value {
+		return strings.Count(a[0].(string), string([]byte{a[1].(uint8)}))
+	}
+	natives["internal/bytealg.IndexString"] = func(fr *frame, fn *ssa.Function, a []value) value {
+		return strings.Index(a[0].(string), a[1].(string))
+	}
+	natives["internal/stringslite.Index"] = func(fr *frame, fn *ssa.Function, a []value) value {
+		return strings.Index(a[0].(string), a[1].(string))
+	}
+	natives["internal/stringslite.IndexByte"] = func(fr *frame, fn *ssa.Function, a []value) value {
+		return strings.IndexByte(a[0].(string), a[1].(uint8))
+	}
+}
